@@ -23,7 +23,9 @@ FUNCTIONS = [(BASE, "CombinedRegistry.add_registry"), (BASE, "CombinedRegistry._
              (UTL, "find_resistance"), (BASE, "FilesystemRegistry.__getitem__"),
              (BASE, "EmbeddedRegistry._data"), (BASE, "EmbeddedRegistry.__getitem__"), (BASE, "EmbeddedRegistry.__iter__"),
              (BASE, "EmbeddedRegistry.__len__"), (BASE, "EmbeddedRegistry._load_name"), (BASE, "EmbeddedRegistry._load_resistance"),
-             (BASE, "EmbeddedRegistry.__eq__"), (BASE, "EmbeddedRegistry.__hash__")]
+             (BASE, "EmbeddedRegistry.__eq__"), (BASE, "EmbeddedRegistry.__hash__"),
+             (BASE, "CombinedRegistry.__init__"), (BASE, "CombinedRegistry.__lshift__"), (BASE, "Item.record"),
+             (BASE, "FilesystemRegistry._files"), (BASE, "FilesystemRegistry.__init__")]
 ASSUMES = ["D-DICT", "D-SET", "D-FS", "D-IO", "D-TAR", "D-HASH", "D-CACHE",
            "EmbeddedRegistry is under contract over an abstract archive (D-TAR: the member sequence of the package data file; "
            "iter(tar.next, None) walks it, getmembers() lists it, one GenBank record per member); its abstract hook "
